@@ -34,9 +34,9 @@ class Sys(pyrex.AntennaSystem):
 
 def build(cls, z, x, af, eff):
     pos = (10.0, -20.0, -100.0)
-    if cls in ('base', 'system'):
+    if cls == 'base':
         a = pyrex.Antenna(position=pos, z_axis=z, x_axis=x, antenna_factor=af, efficiency=eff, noisy=False)
-    elif cls == 'probe':
+    elif cls in ('probe', 'system'):         # the system wraps a probe: delegation must reach angle-dependent gains
         a = Probe(position=pos, z_axis=z, x_axis=x, antenna_factor=af, efficiency=eff, noisy=False)
     else:
         a = UnitDipole('d', pos, center_frequency=250e6, bandwidth=300e6, temperature=300, resistance=50,
@@ -70,32 +70,55 @@ class ResponseDriver:
         p = np.array([float(v) for v in last['p']])
         k = (sum(c['d']) + 3 * sum(c['p'])) % 3
         af, eff = (2.0, 0.5, 4.0)[k], (1.0, 0.5, 0.25)[k]
-        top, ant = build(c['cls'], z, x, af, eff)
+        if last['op'] == 'Reorient':
+            # the object that has just responded is re-oriented (through the system where there is one)
+            top, ant = self.obj
+            if c['cls'] == 'dipole':
+                ant.set_orientation(z_axis=z, x_axis=x)
+            else:
+                top.set_orientation(z_axis=z, x_axis=x)
+        else:
+            top, ant = build(c['cls'], z, x, af, eff)
+            self.obj = (top, ant)
         self.cases += 1
         fr = np.array([float(v) for v in last['frame']])
         r = np.linalg.norm(fr)
-        if c['cls'] == 'probe':
-            pn = p / np.linalg.norm(p)
+        if c['cls'] in ('probe', 'system'):
             polz = last['polz'] / np.linalg.norm(p)
-            # projection of the polarization on the antenna x axis, rotation invariant: p0 . E1
-            polx = c['p'][0] / np.linalg.norm(p)
-            gain = (1 + (0.3 * fr[2] + 0.2 * fr[0] + 0.1 * fr[1]) / r) * (0.5 + 0.25 * polz + 0.125 * polx)
+            polx = last['polx'] / np.linalg.norm(p)
+            dgain, pgain = 1 + (0.3 * fr[2] + 0.2 * fr[0] + 0.1 * fr[1]) / r, 0.5 + 0.25 * polz + 0.125 * polx
         elif c['cls'] == 'dipole':
-            sin_theta = np.sqrt(max(0.0, 1 - (fr[2] / r) ** 2))
-            gain = sin_theta * (last['polz'] / np.linalg.norm(p))
+            dgain, pgain = np.sqrt(max(0.0, 1 - (fr[2] / r) ** 2)), last['polz'] / np.linalg.norm(p)
         else:
-            gain = 1.0
+            dgain, pgain = 1.0, 1.0
+        gain = dgain * pgain
         where = '%s rot=%s d0=%s p0=%s type=%s' % (c['cls'], dict(c['rot']), list(c['d']), list(c['p']), c['vt'])
         s1 = Signal(T, V1, value_type=VT[c['vt']])
         s2 = Signal(T, V2, value_type=VT[c['vt']])
+        from pyrex.signals import EmptySignal
+        empty = EmptySignal(T, value_type=VT[c['vt']])
         if last['factor'] == 'raises':
-            for obj in (top,):
+            calls = {'apply_response(signal)': lambda: top.apply_response(s1, direction=d, polarization=p),
+                     'receive(signal)': lambda: top.receive(s1, direction=d, polarization=p),
+                     'apply_response(empty signal)': lambda: top.apply_response(empty, direction=d, polarization=p),
+                     'receive(empty signal)': lambda: top.receive(empty, direction=d, polarization=p),
+                     'receive([signal, empty signal])': lambda: top.receive([Signal(T, V1, value_type=Signal.Type.voltage), empty],
+                                                                            direction=d, polarization=[p, p])}
+            for name, call in calls.items():
+                n_before = len(ant.signals)
                 try:
-                    obj.apply_response(s1, direction=d, polarization=p)
+                    call()
                 except ValueError:
+                    if len(ant.signals) != n_before:
+                        raise Divergence(where + ': %s rejected but a signal was stored' % name, n_before, len(ant.signals))
                     continue
-                raise Divergence(where + ': signal that is neither field nor voltage', 'ValueError', 'accepted')
+                raise Divergence(where + ': %s with a value type that is neither field nor voltage' % name, 'ValueError', 'accepted')
             return
+        top.clear()
+        top.receive(empty, direction=d, polarization=p)
+        self.same(where + ': receive(empty signal)', ant.signals[-1].values, np.zeros(len(T)))
+        if ant.signals[-1].value_type != Signal.Type.voltage:
+            raise Divergence(where + ': stored empty signal type', 'voltage', ant.signals[-1].value_type)
         factor = gain * eff / (af if last['factor'] == 'gain_over_antenna_factor' else 1.0)
         out1 = top.apply_response(s1, direction=d, polarization=p)
         self.same(where + ': response', out1.values, V1 * factor)
@@ -105,6 +128,11 @@ class ResponseDriver:
             raise Divergence(where + ': output times', list(T), list(out1.times))
         if not np.array_equal(s1.values, V1):
             raise Divergence(where + ': input signal modified', list(V1), list(s1.values))
+        # direction or polarization not given: the corresponding gain is not applied (and the other one still is)
+        base = eff / (af if last['factor'] == 'gain_over_antenna_factor' else 1.0)
+        self.same(where + ': response without direction', top.apply_response(s1, direction=None, polarization=p).values, V1 * pgain * base)
+        self.same(where + ': response without polarization', top.apply_response(s1, direction=d, polarization=None).values, V1 * dgain * base)
+        self.same(where + ': response without direction and polarization', top.apply_response(s1).values, V1 * base)
         # linearity
         s12 = Signal(T, V1 + 2 * V2, value_type=VT[c['vt']])
         out12 = top.apply_response(s12, direction=d, polarization=p)
@@ -114,7 +142,7 @@ class ResponseDriver:
         top.clear()
         top.receive(s1, direction=d, polarization=p)
         self.same(where + ': receive(signal)', ant.signals[-1].values, V1 * factor)
-        if c['cls'] in ('base', 'system'):
+        if c['cls'] == 'base':
             top.receive([s1, s2], direction=d, polarization=[p, p])
             self.same(where + ': receive([s1, s2])', ant.signals[-1].values, (V1 + V2) * factor)
         # dipole gains directly
